@@ -34,9 +34,10 @@ HasNonNull(in, W) == \E t \in W : ValAt(in, t) = "fin"
 NearestSet(S, t) == LET d == Min({Abs(x - t) : x \in S}) IN {x \in S : Abs(x - t) = d}
 
 IsBase(in) == in.kind = "baseline"
-\* The timeline is in half-days: limits can fall between whole-day distances, while max_days and the overshoot
-\* tolerance are whole days (U units each).
-U == 2
+\* The bounded model's timeline is in half-days: limits can fall between whole-day distances, while max_days and the
+\* overshoot tolerance are whole days (U(in) units each).  Recorded calls of real executions (repository tests) carry their
+\* own resolution in `u` (86400: seconds).
+U(in) == IF "u" \in DOMAIN in THEN in.u ELSE 2
 \* rows on the permitted side of the hard limit (end for baseline, start for reporting)
 Side(in) == IF IsBase(in) THEN {t \in Elems(in.idx) : in.hasEnd => t <= in.endp}
                           ELSE {t \in Elems(in.idx) : in.hasStart => t >= in.startp}
@@ -47,7 +48,7 @@ Side(in) == IF IsBase(in) THEN {t \in Elems(in.idx) : in.hasEnd => t <= in.endp}
 \* With ignore_billing_period_gap_for_day_count the count may start at the last datum before the requested end - but only
 \* while the gap between them is within n_days_billing_period_overshoot (any gap when that is None).  A gap of exactly the
 \* tolerance is accepted either way (the documentation does not say whether the bound is inclusive).
-GapTolerated(in) == ~in.hasNd \/ in.endp - U * in.ndover <= Max(Side(in))
+GapTolerated(in) == ~in.hasNd \/ in.endp - U(in) * in.ndover <= Max(Side(in))
 Anchors(in) ==
   IF IsBase(in)
   THEN (IF in.hasEnd THEN {in.endp} ELSE {})
@@ -56,8 +57,8 @@ Anchors(in) ==
 \* soft limits (start for baseline, end for reporting); {} means unbounded
 Targets(in) ==
   IF IsBase(in)
-  THEN IF in.hasStart THEN {in.startp} ELSE IF in.hasEnd /\ in.hasMax THEN {a - U * in.maxd : a \in Anchors(in)} ELSE {}
-  ELSE IF in.hasEnd THEN {in.endp} ELSE IF in.hasStart /\ in.hasMax THEN {a + U * in.maxd : a \in Anchors(in)} ELSE {}
+  THEN IF in.hasStart THEN {in.startp} ELSE IF in.hasEnd /\ in.hasMax THEN {a - U(in) * in.maxd : a \in Anchors(in)} ELSE {}
+  ELSE IF in.hasEnd THEN {in.endp} ELSE IF in.hasStart /\ in.hasMax THEN {a + U(in) * in.maxd : a \in Anchors(in)} ELSE {}
 Cut(in, lim) == IF IsBase(in) THEN {t \in Side(in) : t >= lim} ELSE {t \in Side(in) : t <= lim}
 WindowsFor(in, tg) ==
   IF ~in.overshoot THEN {Cut(in, tg)}
@@ -66,7 +67,8 @@ WindowsFor(in, tg) ==
         \cup (IF (IsBase(in) /\ in.hasStart) \/ (~IsBase(in) /\ in.hasEnd) THEN {Cut(in, tg)} ELSE {})
 Windows(in) == IF Targets(in) = {} THEN {Side(in)} ELSE UNION {WindowsFor(in, tg) : tg \in Targets(in)}
 
-IsSlice(in, o) == \E a \in 1..Len(in.idx) : a + Len(o) - 1 <= Len(in.idx) /\ o = SubSeq(in.idx, a, a + Len(o) - 1)
+\* the index is strictly increasing, so a slice is determined by the position of its first element (linear, for long traces)
+IsSlice(in, o) == Len(o) = 0 \/ (\E a \in 1..Len(in.idx) : in.idx[a] = o[1] /\ a + Len(o) - 1 <= Len(in.idx) /\ o = SubSeq(in.idx, a, a + Len(o) - 1))
 \* A gap at the HARD limit (end for baseline, start for reporting) must be warned unless the caller asked to ignore
 \* the gap; a gap at the SOFT limit must be warned unless overshoot lets the function move that limit to a boundary.
 GapWarnDue(in, w) ==
@@ -77,12 +79,15 @@ GapWarnDue(in, w) ==
 
 \* each clause: <<name, holds>>
 Clauses(in, out) ==
+  LET side == Side(in)            \* evaluated once per call (long recorded traces)
+      wins == Windows(in)
+      got  == Elems(out.oidx) IN
   << <<"DedicatedErrorOrResult", out.res \in {"ok", "nodata"}>>,
-     <<"NoDataOnlyWhenEmpty", out.res = "nodata" => \E W \in Windows(in) : ~HasNonNull(in, W)>>,
+     <<"NoDataOnlyWhenEmpty", out.res = "nodata" => \E W \in wins : ~HasNonNull(in, W)>>,
      <<"ResultWhenData", out.res = "ok" => Len(out.oidx) >= 1>>,
-     <<"NoLeak", out.res = "ok" => \A t \in Elems(out.oidx) : t \in Side(in)>>,
+     <<"NoLeak", out.res = "ok" => got \subseteq side>>,
      <<"ContiguousSlice", out.res = "ok" => IsSlice(in, out.oidx)>>,
-     <<"WindowBounds", out.res = "ok" => Elems(out.oidx) \in Windows(in)>>,
+     <<"WindowBounds", out.res = "ok" => got \in wins>>,
      <<"ValuesUnchanged", out.res = "ok" => out.sameVals>>,
      <<"LastRowBlank", out.res = "ok" => out.lastBlank>>,
      <<"InputUnchanged", out.res \in {"ok", "nodata"} => out.inputSame>>,
@@ -104,10 +109,10 @@ IBaseline(in) ==
   IF side = {} THEN IErr("nodata")
   ELSE
   LET dataEnd   == Max(side)
-      moved     == in.ignoregap /\ (~in.hasNd \/ ~in.hasEnd \/ in.endp - U * in.ndover < dataEnd)
+      moved     == in.ignoregap /\ (~in.hasNd \/ ~in.hasEnd \/ in.endp - U(in) * in.ndover < dataEnd)
       endLimit  == IF moved \/ ~in.hasEnd THEN dataEnd ELSE in.endp       \* when end is None only warnings would see it
       hasTarget == (in.hasEnd /\ in.hasMax) \/ in.hasStart
-      target    == IF in.hasEnd /\ in.hasMax THEN endLimit - U * in.maxd ELSE in.startp
+      target    == IF in.hasEnd /\ in.hasMax THEN endLimit - U(in) * in.maxd ELSE in.startp
       startLim  == IF in.overshoot THEN (IF hasTarget THEN NearestCode(side, target) ELSE Min(side)) ELSE target
       W         == IF in.overshoot \/ hasTarget THEN {t \in side : t >= startLim} ELSE side
       warns     == (IF in.hasEnd /\ Max(Elems(in.idx)) < endLimit THEN {"gap_end"} ELSE {})
@@ -120,7 +125,7 @@ IReporting(in) ==
   ELSE
   LET startLim  == IF in.ignoregap \/ ~in.hasStart THEN Min(side) ELSE in.startp
       hasTarget == (in.hasStart /\ in.hasMax) \/ in.hasEnd
-      target    == IF in.hasStart /\ in.hasMax THEN startLim + U * in.maxd ELSE in.endp
+      target    == IF in.hasStart /\ in.hasMax THEN startLim + U(in) * in.maxd ELSE in.endp
       endLim    == IF in.overshoot THEN (IF hasTarget THEN NearestCode(side, target) ELSE Max(side)) ELSE target
       W         == IF in.overshoot \/ hasTarget THEN {t \in side : t <= endLim} ELSE side
       warns     == (IF in.hasEnd /\ Max(Elems(in.idx)) < endLim THEN {"gap_end"} ELSE {})
